@@ -5,12 +5,6 @@ fn to_f64(&self) -> Approximation<f64, Sign>
         self.denominator.v() > 0,                                          // invariant of Repr
         // isize arithmetic on the bit lengths (overflow of isize is outside this contract)
         blen(self.numerator.v()) < isize::MAX / 2 - 64, blen(self.denominator.v()) < isize::MAX / 2 - 64,
-        // KNOWN FINDING (genuine defect, see report): double rounding.  The quotient (53 or 54 bits) is rounded to an
-        // integer and `encode` rounds that integer AGAIN when it does not fit 53 bits / falls in the subnormal range:
-        // RBig (7 * (2^53 + 1) + 3)/7 = 2^53 + 1.43 -> 2^53, correct: 2^53 + 2.
-        // Region excluded: non-zero remainder AND rounded quotient * 2^shift not representable.
-        !(-1074 - 54 <= rq_shift(self.numerator.v(), self.denominator.v(), 52) < 1024
-            && ratio_double_rounding(fmt64(), self.numerator.v(), self.denominator.v())),
     ensures
         // C06: the correctly rounded (RNE) f32 of numerator/denominator, Exact iff nothing was lost, else the sign of
         // result - exact
@@ -23,17 +17,18 @@ fn to_f64(&self) -> Approximation<f64, Sign>
             return Exact(0.);
         }
 
-        // to get enough precision, shift such that numerator has
-        // 53 bits more than the denominator
+        // to get enough precision, shift such that numerator has 55 bits more than
+        // the denominator (two guard bits, so that the only rounding happens in encode)
         let sign = self.numerator.sign();
         let num_bits = self.numerator.bit_len();
         let den_bits = self.denominator.bit_len();
 
-        let shift = num_bits as isize - den_bits as isize - 53; // i.e. exponent
+        let shift = num_bits as isize - den_bits as isize - 55; // i.e. exponent
         /*@ let ghost xn = absi(self.numerator.v()); let ghost xd = self.denominator.v(); let ghost neg = self.numerator.v() < 0;
             let ghost e = shift as int; let ghost gn = rs_num(xn, e); let ghost gd = rs_den(xd, e);
             proof {
-                lemma_quot_bounds(xn, xd, num_bits as nat, den_bits as nat, 52, e);
+                // 2^54 <= quotient < 2^56
+                lemma_quot_bounds(xn, xd, num_bits as nat, den_bits as nat, 54, e);
                 lemma_pow2_consts();
                 if e >= 0 { lemma_pow2_pos(e as nat); } else { lemma_pow2_pos((-e) as nat); }
             } @*/
@@ -56,53 +51,45 @@ fn to_f64(&self) -> Approximation<f64, Sign>
         // then construct the
         if shift >= 1024 {
             /*@ proof {
+                assert(gn >= pow2(52) * gd) by (nonlinear_arith) requires gn >= 0x40000000000000 * gd, pow2(52) == 0x10000000000000, gd > 0;
                 lemma_ratio_overflow(fmt64(), neg, xn, xd, e);
             } @*/
             // max f64 = 2^1024 × (1 − 2^−53)
             Inexact(sign * f64::INFINITY, sign)
-        } else if shift < -1074 - 54 {
+        } else if shift < -1074 - 56 {
             /*@ proof {
-                // shift <= -1129 and quotient < 2^54: x < 2^-1075
-                lemma_underflow_from_quot(fmt64(), neg, xn, xd, e, 54);
+                lemma_underflow_from_quot(fmt64(), neg, xn, xd, e, 56);
             } @*/
-            // min f64 = 2^-1074, quotient has at most 54 bits
+            // min f64 = 2^-1074, quotient has at most 56 bits
             Inexact(sign * 0f64, -sign)
         } else {
-            /*@ proof { lemma_rq_man(gn, gd); } @*/
             let (man, r) = num.unsigned_abs().div_rem(&den);
             /*@ proof {
-                lemma_quot_fits(gn, gd, 54);
+                lemma_quot_range(gn, gd, 0x40000000000000, 56);
                 assert(man.v() == gn / gd && r.v() == gn % gd);
             } @*/
             let man: u64 = man.try_into().unwrap();
+            /*@ let ghost q = man as int; let ghost rr = r.v(); @*/
 
-            // round to nearest, ties to even
-            if r.is_zero() {
-                Exact(man)
-            } else {
-                let half = (r << 1).cmp(&den);
-                /*@ proof { assert((man & 1 > 0) == (man % 2 != 0)) by (bit_vector); } @*/
-                if half == Ordering::Greater || (half == Ordering::Equal && man & 1 > 0) {
-                    Inexact(man + 1, sign)
-                } else {
-                    Inexact(man, -sign)
-                }
-            }
-            .and_then(|man| /*@ -> (o: Approximation<f64, Sign>)
-                requires man <= 0x40000000000000
-                ensures enc_args64(o, sign, man, shift) @*/
-                f64::encode(sign * man as i64, shift as i16))
+            // append a sticky bit for the remainder and let encode round (to nearest, ties to even)
+            /*@ proof {
+                let sb = (!(rr == 0)) as u64;
+                assert(((man << 1) | sb) == 2 * man + sb && ((man << 1) | sb) < 0x200000000000000) by (bit_vector)
+                    requires man < 0x100000000000000, sb == 0 || sb == 1;
+            } @*/
+            let man = (man << 1) | (!r.is_zero()) as u64;
+            f64::encode(sign * man as i64, (shift - 1) as i16)
         }
         /*@ proof {
-            if -1074 - 54 <= e < 1024 {
-                lemma_rq_man(gn, gd);
-                let a = rq_man(gn, gd);
+            if -1074 - 56 <= e < 1024 {
+                let q = gn / gd;
+                let rr = gn % gd;
                 let fr = fields64(ap_val(ret));
+                lemma_quot_range(gn, gd, 0x40000000000000, 56);
                 lemma_pow2_pos(52);
                 vstd::arithmetic::div_mod::lemma_mod_bound(ap_val(ret).to_bits_spec() as int, 0x10_0000_0000_0000);
-                assert forall|o: Approximation<f64, Sign>| #[trigger] enc_args64(o, sign, a as u64, shift) implies
-                    ap64_ok(o, neg, sc_num(a, e), sc_den(e)) by { lemma_enc_args64(o, sign, a as u64, shift); }
-                lemma_ratio_final(fmt64(), neg, xn, xd, e, fr, ap_exact(ret), ap_pos(ret));
+                // what encode rounded is (2q + sticky) * 2^(shift-1): by the sticky lemma that is the rounding of x itself
+                lemma_sticky_rne_q(fmt64(), neg, xn, xd, e, q, rr, 55, fr, ap_exact(ret), ap_pos(ret));
             }
         } @*/
     }
